@@ -71,9 +71,35 @@ uint64_t next_rnd()
     return S.rng * 2685821657736338717ull;
 }
 
-int decide(int n, int proposed)
+// strategy 4: the prefix decision at the current position does not fit — note it, continue with the default policy
+void diverge4()
+{
+    if (S.res.diverged < 0) {
+        S.res.diverged = int(S.res.decisions.size());
+    }
+    S.replay_pos = S.cfg.replay.size();
+}
+
+int decide(int n, int proposed, bool weak = false)
 {
     // record / replay a decision
+    if (S.cfg.strategy == 4) {
+        int pos = int(S.res.decisions.size());
+        int v = 0;
+        if (S.replay_pos < S.cfg.replay.size()) {
+            v = S.cfg.replay[S.replay_pos++];
+            if (v < 0 || v >= std::max(n, 1)) {
+                diverge4();
+                v = 0;
+            }
+        } else if (S.res.diverged < 0) {
+            for (int a = 1; a < n; ++a) {
+                S.res.alts.push_back(Alt{pos, a, weak ? 2 : 0});
+            }
+        }
+        S.res.decisions.push_back(v);
+        return v;
+    }
     if (S.cfg.strategy == 3 && S.replay_pos < S.cfg.replay.size()) {
         int v = S.cfg.replay[S.replay_pos++];
         if (n > 0) {
@@ -88,8 +114,12 @@ int decide(int n, int proposed)
 
 // pick the next thread to run; called with the baton (by the thread that is about to park or finish)
 // returns tid or 0 when nothing can run
+int pick4(int* cls_out);
 int pick(int* cls_out)
 {
+    if (S.cfg.strategy == 4) {
+        return pick4(cls_out);
+    }
     std::vector<int> strong, timeo, spur;
     for (size_t i = 1; i < S.th.size(); ++i) {
         auto& t = *S.th[i];
@@ -179,6 +209,103 @@ int pick(int* cls_out)
         }
     } else {
         chosen = cand[next_rnd() % cand.size()];
+    }
+    S.res.decisions.push_back(chosen * 4 + cls);
+    *cls_out = cls;
+    return chosen;
+}
+
+// strategy 4: follow the prefix, then the deterministic default; report the alternatives (see vrt.hpp)
+int pick4(int* cls_out)
+{
+    std::vector<int> strong, timeo, spur, ny;
+    for (size_t i = 1; i < S.th.size(); ++i) {
+        auto& t = *S.th[i];
+        if (t.finished || !t.parked) {
+            continue;
+        }
+        int c = t.en ? t.en() : EN;
+        if (c == EN) {
+            strong.push_back(int(i));
+            if (!t.yielded) {
+                ny.push_back(int(i));
+            }
+        } else if (c == EN_TIMEOUT) {
+            timeo.push_back(int(i));
+        } else if (c == EN_SPURIOUS) {
+            spur.push_back(int(i));
+        }
+    }
+    auto has = [](const std::vector<int>& v, int x) { return std::find(v.begin(), v.end(), x) != v.end(); };
+    // as in the random strategies: a thread that has just yielded / slept is only a candidate when every enabled thread has
+    const std::vector<int>& cand = ny.empty() ? strong : ny;
+    int pos = int(S.res.decisions.size());
+    int chosen = 0;
+    int cls = EN;
+    if (S.replay_pos < S.cfg.replay.size()) {
+        int v = S.cfg.replay[S.replay_pos++];
+        int tid = v / 4;
+        cls = v % 4;
+        const std::vector<int>* vec = cls == EN ? &strong : (cls == EN_TIMEOUT ? &timeo : (cls == EN_SPURIOUS ? &spur : nullptr));
+        if (v >= 4 && vec != nullptr && has(*vec, tid)) {
+            chosen = tid;
+            if (cls == EN_SPURIOUS) {
+                --S.spurious_left;
+            }
+        } else {
+            diverge4();
+            cls = EN;
+        }
+    }
+    if (chosen == 0) {
+        bool report = S.res.diverged < 0;
+        if (strong.empty()) {
+            // only time passing can make progress: the first timed operation times out (not counted as a weak event).
+            // Spurious wake-ups alone are no progress: that is a deadlock, as in the random strategies.
+            if (timeo.empty()) {
+                *cls_out = DIS;
+                return 0;
+            }
+            chosen = timeo[0];
+            cls = EN_TIMEOUT;
+            for (size_t k = 1; report && k < timeo.size(); ++k) {
+                S.res.alts.push_back(Alt{pos, timeo[k] * 4 + EN_TIMEOUT, 0});
+            }
+        } else {
+            bool cur = !ny.empty() && has(ny, S.last);  // the running thread can continue and is not spinning
+            if (cur) {
+                chosen = S.last;
+            } else {
+                chosen = cand[0];
+                for (int t : cand) {
+                    if (t > S.last) {
+                        chosen = t;  // cyclic order: fair to spin loops
+                        break;
+                    }
+                }
+            }
+            int pre = cur ? 1 : 0;
+            if (report) {
+                for (int t : cand) {
+                    if (t != chosen) {
+                        S.res.alts.push_back(Alt{pos, t * 4 + EN, pre});
+                    }
+                }
+                for (int t : timeo) {
+                    S.res.alts.push_back(Alt{pos, t * 4 + EN_TIMEOUT, 2 | pre});
+                }
+                for (int t : spur) {
+                    if (S.spurious_left > 0) {
+                        S.res.alts.push_back(Alt{pos, t * 4 + EN_SPURIOUS, 2 | pre});
+                    }
+                }
+            }
+        }
+    }
+    if (cls == EN && ny.empty()) {
+        for (int i : strong) {
+            S.th[i]->yielded = false;
+        }
     }
     S.res.decisions.push_back(chosen * 4 + cls);
     *cls_out = cls;
@@ -338,10 +465,12 @@ int choose(int n, const char* /*what*/)
     return decide(n, v);
 }
 
-bool chance(int num, int den, const char* /*what*/)
+bool chance(int num, int den, const char* what)
 {
     int v = (int(next_rnd() % uint64_t(den)) < num) ? 1 : 0;
-    return decide(2, v) == 1;
+    // the shim's own chances are the weak events "spurious CAS failure" and "late wake-up"
+    bool weak = what != nullptr && (strcmp(what, "casfail") == 0 || strcmp(what, "latewake") == 0);
+    return decide(2, v, weak) == 1;
 }
 
 // ---- plain-access tap -------------------------------------------------------------------------
